@@ -1,6 +1,7 @@
 import DoltVerif.Lemmas.CorruptStages
 import DoltVerif.Lemmas.CorruptLookup
 import DoltVerif.Lemmas.CorruptArchive
+import DoltVerif.Lemmas.CorruptJournal
 import DoltVerif.Model.CorruptWitness
 /-!
 C10 — Corrupted storage files are reported, never misread.
@@ -545,6 +546,20 @@ def wRecord : Bytes := [0, 0, 0, 9, 2] ++ natBE 4 (crc32c [0, 0, 0, 9, 2])
 enough to crash journal bootstrap (harness key `panic:jrn:nbs.readJournalRecord`). -/
 theorem journal_scan_no_panic_full_false : ¬ journal_scan_no_panic_full := by
   intro h; exact h wRecord 1048576 (by decide +kernel)
+
+/-- **journal_scan_no_panic_partial**: the record scan of journal bootstrap never panics
+**provided** every record of the file that passes `validateJournalRecord` has a well-formed field
+layout (`Journal.fieldsOk`: an address field has its 20 bytes, a timestamp field its 8, the walk
+ends on the 4 checksum bytes) — the check `readJournalRecord` does not make.  Inside the scan
+`validateJournalRecord` itself is panic-free (`Journal.validate_no_panic`: its `uint32`
+underflow needs a length field below 4, which the scan never passes). -/
+theorem journal_scan_no_panic_partial (data : Bytes) (buffSize : Nat) (hg : Journal.ScanGuard data) :
+    (Journal.scan data buffSize).2 ≠ some .panicWouldOccur :=
+  Journal.scanLoop_no_panic data buffSize hg _ _ _
+
+/-- the guard is decidable per record: a root-hash record shape passes, the witness record fails -/
+example : Journal.fieldsOk 10 ([1, 1, 2] ++ List.replicate 20 7 ++ [4] ++ List.replicate 8 0 ++ [0, 0, 0, 0]) = true := by decide +kernel
+example : Journal.fieldsOk 10 (wRecord.drop 4) = false := by decide +kernel
 
 /-- `validateJournalRecord` on its own underflows `off -= journalRecChecksumSz` for a length field
 below 4 (unreachable from `processJournalRecordsReader`, which passes `len(buf) = length field`). -/
